@@ -24,4 +24,10 @@ Inv == /\ IsDesiredSet(r, S, Desired(r, S))
        /\ Bound(r, S) = DeclBound(r, S)
        /\ EffSlots(r, S) = {s \in S : s >= 0 /\ s < DeclBound(r, S)}
        /\ \A O \in SUBSET (0..(MaxR + Hi + 1)) : IsDesiredSet(r, S, O) => O = Desired(r, S)   \* uniqueness
+       \* lemma that links OrdinalsInd.tla (Apalache: all integer slot values) to the desired set: the three facts of its
+       \* 'Final' - bound = r + |eff|, eff = the slots inside [0, bound) - give exactly Desired (the bound itself
+       \* is not determined by them: r = 0, S = {0} admits b = 0 and b = 1; the walk's bound is checked above)
+       /\ \A b \in 0..(MaxR + Hi + 2) :
+             LET E == {s \in S : s >= 0 /\ s < b} IN
+               b = r + Cardinality(E) => (0..(b - 1)) \ E = Desired(r, S)
 =======================================================================================
